@@ -29,6 +29,7 @@ type WireItem struct {
 	Len   int    `json:"len,omitempty"` // declared message length for badchunk (-1: actual)
 	Name  string `json:"name,omitempty"`
 	Shape int    `json:"shape,omitempty"`
+	Lit   []byte `json:"lit,omitempty"` // Gen "literal": the payload itself
 }
 
 type HostileConn struct {
@@ -60,6 +61,8 @@ func randBytes(seed uint64, n int) []byte {
 func genPayload(it WireItem) []byte {
 	n := it.N
 	switch it.Gen {
+	case "literal":
+		return append([]byte{}, it.Lit...)
 	case "rand":
 		return randBytes(it.Seed, n)
 	case "zeros":
@@ -104,6 +107,33 @@ func genPayload(it WireItem) []byte {
 			b = append(b, 0, 0, 9)
 		}
 		return b
+	case "meta_knownkeys":
+		// a well-framed onMetaData whose well-known properties (the ones servers look up by name) hold well-formed values
+		// of another type than expected: strings where numbers belong and the other way round
+		var f rtmpc.Amf
+		if n%2 == 0 {
+			f.Str("@setDataFrame")
+		}
+		f.Str("onMetaData")
+		b := f.B
+		if n%3 == 0 {
+			b = append(b, 3)
+		} else {
+			b = append(b, 8, 0, 0, 0, 12)
+		}
+		wrong := [][]byte{{2, 0, 4, 'm', 'p', '4', 'a'}, {2, 0, 0}, {1, 1}, {5}, {6}, {3, 0, 0, 9}, {8, 0, 0, 0, 0, 0, 0, 9}, {10, 0, 0, 0, 0}, {11, 0, 0, 0, 0, 0, 0, 0, 0, 0, 0},
+			{12, 0, 0, 0, 2, '1', '0'}, {0, 0x7f, 0xf8, 0, 0, 0, 0, 0, 0}, {0, 0xc0, 0x24, 0, 0, 0, 0, 0, 0}, {0, 0x7f, 0xf0, 0, 0, 0, 0, 0, 0}, {0, 0x43, 0xf0, 0, 0, 0, 0, 0, 0}}
+		keys := []string{"audiocodecid", "audiosamplerate", "videocodecid", "width", "height", "framerate", "duration", "audiodatarate", "videodatarate", "audiosamplesize", "stereo", "encoder", "audiochannels", "filesize"}
+		x := it.Seed
+		for ki, key := range keys {
+			if (it.Shape>>uint(ki%6))&1 == 0 && ki != int(x%uint64(len(keys))) {
+				continue
+			}
+			b = append(b, 0, byte(len(key)))
+			b = append(b, key...)
+			b = append(b, wrong[(int(x/16%1000)+ki*5)%len(wrong)]...)
+		}
+		return append(b, 0, 0, 9)
 	case "amf_bigcount":
 		return []byte{10, 0xff, 0xff, 0xff, 0xff, 0, 0x40, 0, 0, 0, 0, 0, 0, 0}
 	case "amf_longstr":
@@ -134,9 +164,12 @@ func genPayload(it WireItem) []byte {
 		return append(append([]byte{}, hdr...), randBytes(it.Seed, n)...)
 	case "ex_video_trunc":
 		// every prefix of every enhanced-RTMP video header: IsExHeader | frame type | packet type, FourCC, composition time,
-		// a little body - cut after n bytes (1..12)
-		full := []byte{byte(0x80 | (1+it.Shape%2)<<4 | it.Shape/2%6)}
-		full = append(full, [][]byte{[]byte("hvc1"), []byte("hvc1"), []byte("av01"), []byte("avc1"), []byte("vp09")}[it.Shape/12%5]...)
+		// a little body - cut after 1..12 bytes (key frames, sequence start and hvc1 are drawn more often: most code looks there)
+		x := it.Seed
+		ft := []int{1, 1, 1, 2, 3, 5}[x%6]
+		pt := []int{0, 0, 1, 1, 3, 2, 4, 5}[x/6%8]
+		cc := []string{"hvc1", "hvc1", "hvc1", "av01", "avc1", "vp09"}[x/48%6]
+		full := append([]byte{byte(0x80 | ft<<4 | pt)}, cc...)
 		full = append(full, 0, 0, 0, 0, 0, 0, 1, 0x26)
 		return full[:1+n%12]
 	case "audio_hdr":
@@ -712,14 +745,14 @@ func genWireItems(r *sim.Rng, n int, asPublisher bool) []WireItem {
 				}
 			}
 		case 4: // media / data before or after the role is fixed
-			gen := []string{"video_hdr", "audio_hdr", "valid_video", "valid_audio", "seqhdr_trunc", "hevc_seqhdr_trunc", "nal_zero_len", "ex_video_trunc"}[r.Intn(8)]
+			gen := []string{"video_hdr", "audio_hdr", "valid_video", "valid_audio", "seqhdr_trunc", "hevc_seqhdr_trunc", "nal_zero_len", "ex_video_trunc", "ex_video_trunc"}[r.Intn(9)]
 			t := 9
 			if gen == "audio_hdr" || gen == "valid_audio" {
 				t = 8
 			}
 			items = append(items, WireItem{Kind: "msg", Type: t, Csid: 6, Msid: 1, Ts: []uint32{0, 40, 0xFFFFFF, 0xFFFFFFFF, 0x7FFFFFFF, 100000}[r.Intn(6)], Gen: gen, N: r.Intn(60), Seed: seed, Shape: r.Intn(64)})
 		case 5: // metadata variants
-			items = append(items, WireItem{Kind: "msg", Type: []int{18, 15, 18}[r.Intn(3)], Csid: 5, Msid: 1, Gen: []string{"meta_bad", "meta_nest", "rand", "amf_bigcount", "amf_shortlong", "meta_objvals", "meta_objvals"}[r.Intn(7)], N: []int{0, 1, 3, 50, 3000, 7, 11, 17}[r.Intn(8)], Seed: seed})
+			items = append(items, WireItem{Kind: "msg", Type: []int{18, 15, 18}[r.Intn(3)], Csid: 5, Msid: 1, Gen: []string{"meta_bad", "meta_nest", "rand", "amf_bigcount", "amf_shortlong", "meta_objvals", "meta_objvals", "meta_knownkeys"}[r.Intn(8)], N: []int{0, 1, 3, 50, 3000, 7, 11, 17}[r.Intn(8)], Seed: seed, Shape: r.Intn(64)})
 		case 6: // deep nesting (up to the 16 MiB message limit occasionally)
 			// 400 000 levels are 2-3 MB of message and, at the 250 MB stack cap of the workers, more than any recursion
 			// that is not bounded by the parser survives; deeper (up to the 16 MiB message limit) only costs minutes per run
@@ -747,7 +780,13 @@ func genWireItems(r *sim.Rng, n int, asPublisher bool) []WireItem {
 			}
 		case 11:
 			if asPublisher {
-				items = append(items, WireItem{Kind: "msg", Type: 9, Csid: 6, Msid: 1, Ts: uint32(r.Intn(5000)), Gen: "valid_video", N: r.Intn(300), Seed: seed, Shape: r.Intn(2)})
+				it := WireItem{Kind: "msg", Type: 9, Csid: 6, Msid: 1, Ts: uint32(r.Intn(5000)), Gen: "valid_video", N: r.Intn(300), Seed: seed, Shape: r.Intn(2)}
+				if r.Bool(0.25) {
+					// a large frame (several of lal's own output chunks) at or beyond the extended-timestamp threshold
+					it.N = []int{4000, 8100, 8200, 9000, 20000, 70000}[r.Intn(6)] + r.Intn(200)
+					it.Ts = []uint32{0xFFFFFE, 0xFFFFFF, 0x1000000, 0x7FFFFFFF, 0xFFFFFFFF}[r.Intn(5)]
+				}
+				items = append(items, it)
 			} else {
 				items = append(items, WireItem{Kind: "cmd", Name: "publish", Shape: 0})
 			}
